@@ -4,6 +4,7 @@ import (
 	"fmt"
 	"go/types"
 	"sort"
+	"strings"
 
 	"golang.org/x/tools/go/ssa"
 )
@@ -345,12 +346,24 @@ func (x *Exec) load(st *State, p *Ptr) Value {
 	return v
 }
 
-// loadNoFacts is used by spec evaluation (no pc side effects).
+// loadNoFacts is used by spec evaluation (no pc side effects). Model axioms about the loaded
+// references (not newer than the allocation top of their heap version) are collected in
+// x.specFacts when a specification is being evaluated, and become antecedents of the clause.
 func (x *Exec) loadNoFacts(st *State, p *Ptr) Value {
 	leaves := flatten(p.Sub)
 	v := Value{T: p.Sub, L: make([]Term, len(leaves))}
 	for j := range leaves {
 		v.L[j] = x.loadLeaf(st, p, j)
+	}
+	if x.specFacts != nil && p.Kind == pHeap && len(p.ArrIdx) == 0 {
+		for j, l := range leaves {
+			if l.Kind == lkSliceArr || (l.Kind == lkPlain && l.T != nil && isRefLike(l.T)) {
+				lf := leafAt(p.Base, p.Off+j)
+				if !strings.Contains(v.L[j].S, "!q") {
+					*x.specFacts = append(*x.specFacts, mkCmp("<=", v.L[j], x.heapTopOf(st, heapName("H", p.Base, lf.Path))))
+				}
+			}
+		}
 	}
 	return v
 }
@@ -409,8 +422,10 @@ func (x *Exec) deref(v Value) *Ptr {
 	}
 	if len(v.L) == 1 {
 		// a structured address that went through a variable or the heap keeps its term
-		if p, ok := x.ptrs[v.L[0].S]; ok {
-			return p
+		if pt, ok := v.T.Underlying().(*types.Pointer); ok {
+			if p, ok := x.ptrs[v.L[0].S+"|"+typeKey(pt.Elem())]; ok {
+				return p
+			}
 		}
 	}
 	pt, ok := v.T.Underlying().(*types.Pointer)
@@ -440,19 +455,17 @@ func (x *Exec) ptrValue(st *State, t types.Type, p *Ptr) Value {
 		x.pre.declare(sym, "(declare-fun "+sym+" () Int)")
 		term = Term{sym, sInt}
 	case p.Kind == pHeap:
-		fn := quoteSym(fmt.Sprintf("fieldptr:%s:%d", typeKey(p.Base), p.Off))
-		x.pre.declare(fn, "(declare-fun "+fn+" (Int) Int)")
-		term = app(fn, sInt, p.Obj)
+		args := append([]Term{p.Obj}, p.ArrIdx...)
+		term = x.uf(fmt.Sprintf("fieldptr:%s:%d:%d", typeKey(p.Base), p.Off, len(p.ArrIdx)), sInt, args...)
 	default:
-		fn := quoteSym(fmt.Sprintf("elemptr:%s:%d", typeKey(p.Base), p.Off))
-		x.pre.declare(fn, "(declare-fun "+fn+" (Int Int) Int)")
-		term = app(fn, sInt, p.Obj, p.Idx)
+		args := append([]Term{p.Obj, p.Idx}, p.ArrIdx...)
+		term = x.uf(fmt.Sprintf("elemptr:%s:%d:%d", typeKey(p.Base), p.Off, len(p.ArrIdx)), sInt, args...)
 	}
 	if !(p.Kind == pHeap && term.S == p.Obj.S) && p.Kind != pArr {
 		if x.ptrs == nil {
 			x.ptrs = map[string]*Ptr{}
 		}
-		x.ptrs[term.S] = p
+		x.ptrs[term.S+"|"+typeKey(p.Sub)] = p
 	}
 	if st != nil && !(p.Kind == pHeap && term.S == p.Obj.S) && p.Kind != pArr {
 		st.assume(mkCmp(">", term, tZero)) // addresses of variables, fields and elements are never nil
